@@ -41,13 +41,13 @@ const (
 )
 
 type Part struct {
-	Kind  PartKind
-	Lit   []Unit
-	Sub   []Part  // PDQ
-	ShParam *ShParam  // PParam
-	List  []*Cmd  // PCmdSub
-	Arith []Part  // PArith: expression text as parts (literals and parameter expansions)
-	Quoted bool   // literal came from quotes/escapes (no splitting/globbing/reserved-word meaning)
+	Kind    PartKind
+	Lit     []Unit
+	Sub     []Part   // PDQ
+	ShParam *ShParam // PParam
+	List    []*Cmd   // PCmdSub
+	Arith   []Part   // PArith: expression text as parts (literals and parameter expansions)
+	Quoted  bool     // literal came from quotes/escapes (no splitting/globbing/reserved-word meaning)
 }
 
 type ShParam struct {
@@ -87,14 +87,14 @@ type Cmd struct {
 	Words   []Word
 	Redirs  []Redir
 	// compound
-	Conds  [][]*Cmd // if/elif conditions, while condition at [0]
-	Bodies [][]*Cmd // if/elif bodies (+ else as last when HasElse), loop body at [0]
-	HasElse bool
-	Init, Test, Step []Part // for (( ; ; ))
-	Name   string   // function name
-	Sub    []*Cmd   // pipeline members / and-or members
-	Ops    []string // and-or operators between Sub members
-	Line   int
+	Conds            [][]*Cmd // if/elif conditions, while condition at [0]
+	Bodies           [][]*Cmd // if/elif bodies (+ else as last when HasElse), loop body at [0]
+	HasElse          bool
+	Init, Test, Step []Part   // for (( ; ; ))
+	Name             string   // function name
+	Sub              []*Cmd   // pipeline members / and-or members
+	Ops              []string // and-or operators between Sub members
+	Line             int
 }
 
 type ShAssign struct {
